@@ -977,7 +977,41 @@ func checkSaveRestore(c *Ctx, t *tables, a *parserAnchors, in installer) {
 		return ok && b.Kind() == types.Int
 	})
 	if fld == nil {
-		c.unres("requested-binding-power field", token.NoPos, "Parser has no unique int field")
+		// several int fields (a counter added later): the requested binding power is the one the expression wrapper,
+		// its closures, or a one-statement setter they call store into
+		cands := map[*types.Var]bool{}
+		var scan func(f *ssa.Function, depth int)
+		scan = func(f *ssa.Function, depth int) {
+			if f == nil || depth > 2 {
+				return
+			}
+			allInstrs(f, func(_ *ssa.BasicBlock, _ int, ins ssa.Instruction) {
+				if st, ok := ins.(*ssa.Store); ok {
+					if fa, ok := st.Addr.(*ssa.FieldAddr); ok && namedIs(fa.X.Type(), "parser", "Parser") {
+						if b, ok := fieldOfAddr(fa).Type().Underlying().(*types.Basic); ok && b.Kind() == types.Int {
+							cands[fieldOfAddr(fa)] = true
+						}
+					}
+				}
+				if call, ok := ins.(ssa.CallInstruction); ok {
+					if cal := staticCallee(call); cal != nil && cal.Pkg == f.Pkg && cal.Object() != nil && !cal.Object().Exported() && len(cal.Blocks) == 1 {
+						scan(cal, depth+1)
+					}
+				}
+			})
+			for _, n := range f.AnonFuncs {
+				scan(n, depth)
+			}
+		}
+		scan(in.wrapper, 0)
+		if len(cands) == 1 {
+			for k := range cands {
+				fld = k
+			}
+		}
+	}
+	if fld == nil {
+		c.unres("requested-binding-power field", token.NoPos, "Parser has no unique int field, and the expression wrapper does not store into exactly one of its int fields")
 		return
 	}
 	w := in.wrapper
